@@ -168,6 +168,54 @@ func cmdStruct(args []string) {
 			}
 			fmt.Fprintf(&src, "\tConv(source FS%d) FT%d\n}\n", i, i)
 			drvLines[i]["ins"] = []any{stv(full...), stv(pnil...)}
+		case "fieldx":
+			var q map[string]any
+			hx.Must(json.Unmarshal(s.Prog, &q))
+			switch q["x"] {
+			case "unknown-target":
+				fmt.Fprintf(&src, "\ntype XS%d struct{ A, B int }\ntype XT%d struct{ A int }\n\n// goverter:converter\n%stype C%d interface {\n\t// goverter:%s\n", i, i, head(i), i, q["line"])
+				if q["im"] == true {
+					src.WriteString("\t// goverter:ignoreMissing\n")
+				}
+				fmt.Fprintf(&src, "\tConv(source XS%d) XT%d\n}\n", i, i)
+			case "method":
+				fields := "Other int"
+				if q["field"] != "none" {
+					fields += "; " + q["field"].(string) + " int"
+				}
+				fmt.Fprintf(&src, "\ntype XS%d struct{ %s }\n", i, fields)
+				if q["meth"] != "none" {
+					fmt.Fprintf(&src, "func (XS%d) %s() int { return 2 }\n", i, q["meth"])
+				}
+				fmt.Fprintf(&src, "type XT%d struct{ Name int }\n\n// goverter:converter\n%stype C%d interface {\n", i, head(i), i)
+				if q["mic"] == true {
+					src.WriteString("\t// goverter:matchIgnoreCase\n")
+				}
+				fmt.Fprintf(&src, "\tConv(source XS%d) XT%d\n}\n", i, i)
+				vals := []any{lit(0)}
+				if q["field"] != "none" {
+					vals = append(vals, lit(1))
+				}
+				drvLines[i]["ins"] = []any{stv(vals...)}
+			case "reuse":
+				fmt.Fprintf(&src, "\ntype XI%d struct{ C int }\ntype XS%d struct {\n\tA int\n\tB int\n\tInner XI%d\n}\ntype XT%d struct {\n\tA int\n\tC int\n}\n\n// goverter:converter\n// goverter:ignoreMissing\n%stype C%d interface {\n", i, i, i, i, head(i), i)
+				switch q["setting"] {
+				case "map":
+					src.WriteString("\t// goverter:map B C\n")
+				case "ignore":
+					src.WriteString("\t// goverter:ignore C\n")
+				case "autoMap":
+					src.WriteString("\t// goverter:autoMap Inner\n")
+				}
+				fmt.Fprintf(&src, "\tConv(source *XS%d) *XT%d\n", i, i)
+				switch q["second"] {
+				case "slice":
+					fmt.Fprintf(&src, "\tConvAll(source []XS%d) []XT%d\n", i, i)
+				case "value":
+					fmt.Fprintf(&src, "\tConvV(source XS%d) XT%d\n", i, i)
+				}
+				src.WriteString("}\n")
+			}
 		case "acc":
 			st, tt := "q.SQ1", "q.TQ"
 			line := ""
@@ -321,6 +369,9 @@ func cmdStruct(args []string) {
 			if scens[i].Kind == "acc" {
 				drvLines[i]["ins"] = []any{}
 			}
+			if scens[i].Kind == "fieldx" && len(drvLines[i]["ins"].([]any)) > 0 {
+				// the converter of a method program has exactly one method named Conv
+			}
 			w.Write(drvLines[i])
 		} else {
 			w.Write(map[string]any{"ins": []any{}})
@@ -369,6 +420,16 @@ func cmdStruct(args []string) {
 			obs.Write(base)
 		case "acc":
 			base["side"], base["setting"] = s.Side, s.Setting
+			obs.Write(base)
+		case "fieldx":
+			base["prog"] = s.Prog
+			base["full"] = -1
+			for _, r := range byID[i] {
+				nExec++
+				if r["panic"] != true {
+					base["full"] = litOf(r["out"].(map[string]any)["fs"].([]any)[0])
+				}
+			}
 			obs.Write(base)
 		case "default":
 			if o.Gen != "ok" || badc {
